@@ -70,8 +70,10 @@ def from_yaml_all(f: FileOrPath, ty: t.Type[T], *,
     with open_file(f) as f:
         obj = t.cast(t.List[t.Any], list(yaml.load_all(f, Loader)))  # type: ignore
 
-    # build the list converter directly: `t.List[ty]` rejects tuple type literals like `(int, str)`
-    return SequenceConverter(list, ty, handlers=ConverterHandlers.make(custom)).convert(obj)
+    if isinstance(ty, (tuple, dict)):
+        # `t.List[ty]` rejects (or unpacks) struct/tuple type literals like `(int, str)`: build the list converter directly
+        return SequenceConverter(list, ty, handlers=ConverterHandlers.make(custom)).convert(obj)
+    return from_data(obj, t.List[ty], custom=custom)
 
 
 def write_json(obj: Convertible, f: FileOrPath, *,
